@@ -126,6 +126,21 @@ def run(c):
                            input={"rules_files_in_load_order": o.get("rules"), "runs": o.get("calls"), "files": o.get("srcs"), "seed": seed, "history_index": o["history"]},
                            expected="identical report sequence", observed=o["mismatch"])
                 continue
+            if o["k"] == "lookup":
+                # run-time lookups by name (ctx.GetType / ctx.GetInterface) that fail: the outcome on a used engine vs. a fresh one
+                c.count(max(o["reports"], 1))
+                c.coverage["failing_lookup_histories"] = c.coverage.get("failing_lookup_histories", 0) + 1
+                c.coverage["runs_ended_by_a_failed_lookup"] = c.coverage.get("runs_ended_by_a_failed_lookup", 0) + o.get("panics", 0)
+                for k, v in (o.get("kinds") or {}).items():
+                    c.nontriv(("lookup", k))
+                    if k.startswith("reference-runs"):
+                        c.coverage["lookup_" + k.replace("-", "_")] = c.coverage.get("lookup_" + k.replace("-", "_"), 0) + v
+                if o.get("mismatch"):
+                    c.fail("oracle", "the outcome of a Run (reports, then the failure of a custom filter whose ctx.GetType / ctx.GetInterface finds no such "
+                           "name) depends on what the engine ran before: " + o["mismatch"],
+                           input={"rules": o.get("rules"), "files": o.get("srcs"), "history": o.get("calls"), "seed": seed, "variant": o.get("variant")},
+                           expected="the outcome of the same call on a fresh engine: the same reports, ended by the same failure", observed=o["mismatch"])
+                continue
             if o["k"] == "cold":
                 # the same (rule set, file) in another process that did everything in the opposite order
                 c.count(max(o["reports"], 1))
@@ -166,6 +181,10 @@ def run(c):
         c.coverage["histories"] = c.coverage.get("histories", 0) + n
         if not c.coverage.get("cold_process_references") or not c.coverage.get("growing_engine_histories"):
             c.obligation("harness-run:history-cold-and-grow", False, "no cold-process reference / growing-engine history ran")
+        if not c.coverage.get("runs_ended_by_a_failed_lookup") or not c.coverage.get("lookup_reference_runs_without_failure") \
+                or not c.coverage.get("lookup_reference_runs_ended_by_a_failed_lookup"):
+            c.obligation("harness-run:history-failing-lookups", False, "the histories with failing run-time lookups did not run both kinds of runs "
+                         "(ended by a failed lookup / not): %s" % {k: v for k, v in c.coverage.items() if "lookup" in k})
         if not c.coverage.get("rule_locality_runs") or not c.coverage.get("runs_started_from_report_callbacks"):
             c.obligation("harness-run:history-rule-locality-and-reentrancy", False, "no rule-locality run / no run started from a Report callback")
 
